@@ -120,10 +120,11 @@ DS2 = b'\x08\x00\x18\x00\x04\x00\x00\x001.2.'
 @cond(bounds='each of the 23 message classes: the same message object sent twice (three times in the thorough tier) '
              'with message id, status, UID length (2 -> 1..4, so that the encoded size changes), optional fields (unset -> set) and data-set presence (present / None / empty) changed '
              'between sends (all symbolic); schedule symbolic: the provider thread drains each queued message at once, or all '
-             'of them only after the last send', family={'cls': list(range(23))}, timeout=180, thorough_timeout=900)
+             'of them only after the last send (quick tier: lagging schedule for the 8 classes the library itself re-sends)', family={'cls': list(range(23))}, timeout=180, thorough_timeout=900)
 def resend_wellformed(mid: int, mid2: int, n2: int, ds1: bool, ds2: int, opt1: bool, lazy: bool) -> bool:
     """
     pre: 0 <= mid <= 65535 and 0 <= mid2 <= 65535 and 1 <= n2 <= 4 and 0 <= ds2 <= 2
+    pre: _lazy_in_scope(lazy)
     post: _
     """
     cls = MSG_CLASSES[fam('cls')]
@@ -148,8 +149,18 @@ def resend_wellformed(mid: int, mid2: int, n2: int, ds1: bool, ds2: int, opt1: b
         ok = ok and sent_ok(a, cls, 3, ds1, 0, mid) and sent_ok(a, cls, 3, ds2 == 0, 1, mid2)
         if tier() == 'thorough':
             ok = ok and sent_ok(a, cls, 3, True, 2, mid)
-    deep(ok and ds2 == 2 and n2 == 1 and lazy)
+    deep(ok and ds2 == 2 and n2 == 1 and (lazy or not _lazy_in_scope(True)))
     return ok
+
+
+# message classes whose objects the library's own providers send more than once (quick tier: the lagging schedule is
+# explored for these; thorough tier: for all 23 classes)
+RESENT_BY_LIBRARY = ('CFindRSPMessage', 'CMoveRSPMessage', 'CGetRSPMessage', 'CStoreRQMessage', 'CStoreRSPMessage',
+                     'CEchoRSPMessage', 'NActionRSPMessage', 'NEventReportRQMessage')
+
+
+def _lazy_in_scope(lazy):
+    return (not lazy) or tier() == 'thorough' or MSG_CLASSES[fam('cls')].__name__ in RESENT_BY_LIBRARY
 
 
 def _nmax():
